@@ -53,31 +53,32 @@ type uniqueEnt struct {
 }
 
 type Interp struct {
-	prog     *ssa.Program
-	e        *Engine
-	globals  map[*ssa.Global]Loc
-	inited   map[*ssa.Package]bool
-	execInit func(p *ssa.Package) bool
-	replace  map[string]*ssa.Function // callee full name -> harness replacement
+	prog          *ssa.Program
+	e             *Engine
+	globals       map[*ssa.Global]Loc
+	inited        map[*ssa.Package]bool
+	execInit      func(p *ssa.Package) bool
+	replace       map[string]*ssa.Function // callee full name -> harness replacement
 	replaceCompat map[string]bool
-	fset     *token.FileSet
-	steps    int64
-	curG     *G
-	sched    *Sched
-	pools    map[Loc]*poolState
-	errStrT  types.Type // *errors.errorString
-	opaqueT  types.Type
-	now      *virtClock
-	harnessPkg string
-	uniques    []uniqueEnt
-	noSummaries  bool
-	inInit       bool
-	snap         *snapState
-	pathCopier   *copier
-	snapDisabled bool
-	elapsed0     int64
-	buildPkg   func(*ssa.Package)
-	race       *raceDet
+	fset          *token.FileSet
+	steps         int64
+	curG          *G
+	sched         *Sched
+	pools         map[Loc]*poolState
+	errStrT       types.Type // *errors.errorString
+	opaqueT       types.Type
+	now           *virtClock
+	harnessPkg    string
+	uniques       []uniqueEnt
+	noSummaries   bool
+	inInit        bool
+	snap          *snapState
+	pathCopier    *copier
+	snapDisabled  bool
+	elapsed0      int64
+	buildPkg      func(*ssa.Package)
+	race          *raceDet
+	forkVC        vclock
 }
 
 func (in *Interp) resetPath() {
